@@ -24,7 +24,9 @@ TRUSTED = [
     "header id/flags and the class field, reads the raw bytes",
     "sockets are simulated (one IPv4, optionally one IPv6 transport per host); OS-level routing of the datagram is not exercised",
 ]
-ASSUMPTIONS = ["integer-millisecond clock", "queries are delivered on one socket of the host per scenario (each socket has its own listener object)"]
+ASSUMPTIONS = ["integer-millisecond clock",
+               "UDP source port 0 is not generated: `async_send_with_transport` sends to `port or 5353`, so a legacy query from port 0 would be "
+               "answered to port 5353; port 0 is not a usable source port (RFC 768: 'no reply expected'), the model answers to `port`", "queries are delivered on one socket of the host per scenario (each socket has its own listener object)"]
 
 T0 = vsim.T0
 MDNS6 = "ff02::fb"
@@ -224,6 +226,7 @@ def run_scenario(seed, sc_no):
                 e = R.with_ttl(r, ttl)
                 e.created = float(now - age)
                 zc.cache.async_add_records([e])
+                tr.pokes.append((now, uni.id(r)))
             port = rng.choice([5353, 5353, 5353, 40000, 1, 65535, 5354])
             # message ids: boundary-biased, above all for legacy sources (one-shot resolvers do send id 0)
             qid = (qid + rng.randrange(1, 5000)) % 65536 or 1
@@ -232,10 +235,12 @@ def run_scenario(seed, sc_no):
             elif rng.random() < 0.25:
                 qid = rng.choice([0, 0, 1, 0xFFFF])
             probe = rng.random() < 0.25
+            v6flow, v6scope = rng.choice([0, 0, 7]), rng.choice([3, 3, 4, 9, 0])
 
             def source(alt=False):
                 if rx_v6:
-                    return ("fe80::8" if alt else "fe80::9", port, 0, 3)
+                    # link-local peers: flowinfo and scope id are part of the address and need not be the receiving socket's
+                    return ("fe80::8" if alt else "fe80::9", port, v6flow, v6scope)
                 return (("10.0.0.7" if alt else rng.choice(["10.0.0.9", "10.0.0.8"])), port)
 
             if rng.random() < 0.35:
@@ -251,16 +256,16 @@ def run_scenario(seed, sc_no):
                 questions = [rng.choice(pool[:len(pool) - 4]) for _ in range(nq)]
                 data, qs, qus = R.build_query(rng, infos, uni, qid, questions=questions, qus=qus, probe=probe and rng.random() < 0.3, known_p=0.05)
                 src = source()
-                box["queries"].append(dict(t=now, src=src[:2], data=data, id=qid, probe=probe))
+                box["queries"].append(dict(t=now, src=src, data=data, id=qid, probe=probe))
                 rx_tr.protocol.datagram_received(data, src)
                 await sim.sleep_ms(rng.choice([0, 1, 300, 300, 999, 999, 1000, 1001]))
                 src2 = source(alt=rng.random() < 0.8)
-                box["queries"].append(dict(t=sim.loop.ms, src=src2[:2], data=data, id=qid, probe=probe, twin=True))
+                box["queries"].append(dict(t=sim.loop.ms, src=src2, data=data, id=qid, probe=probe, twin=True))
                 rx_tr.protocol.datagram_received(data, src2)
                 continue
             data, qs, qus = R.build_query(rng, infos, uni, qid, nq=rng.choice([1, 1, 2, 3, 4]), qu_p=0.5, probe=probe, known_p=0.15)
             src = source()
-            box["queries"].append(dict(t=now, src=src[:2], data=data, id=qid, probe=probe))
+            box["queries"].append(dict(t=now, src=src, data=data, id=qid, probe=probe))
             rx_tr.protocol.datagram_received(data, src)
         await sim.sleep_ms(3000)
         tr.uninstall()
@@ -392,8 +397,9 @@ def check_trace_O(res, box, case):
             b["expect_later"] = el - dontcare
             for o in ucasts:
                 m = o["msg"]
-                if o["to"] != src:
-                    res.violate("C11:unicast-destination", "unicast reply sent to %s, query came from %s" % (o["to"], src), at)
+                if o["to_full"] != b["src_full"]:
+                    res.violate("C11:unicast-destination", "unicast reply sent to %s, query came from %s (for IPv6 the destination includes "
+                                "flowinfo and scope id of the source)" % (o["to_full"], b["src_full"]), at)
                 if o["sock"] is not box["lis"].transport.transport.sock:
                     res.violate("C11:unicast-socket", "unicast reply not sent on the receiving socket", at)
                 if m.id != pkt["id"]:
@@ -459,6 +465,9 @@ def run_trace_stream(ctx, res, n, only=None):
                 res.disagree("c11run", dict(case, at_block=kk, at_ms=(kept[kk]["t"] - T0) if kk < len(kept) else None),
                              iobs[kk] if kk < len(iobs) else None, (head, mobs[kk] if kk < len(mobs) else None))
         check_trace_O(res, box, case)
+        for (rid, s_, c_, e_) in R.sighting_gaps(tr, maxdelay=0)[:2]:
+            res.disagree("sightings", dict(case, at_ms=c_), "cache entry of %s at %d ms: %s" % (tr.uni.describe(rid), c_, e_),
+                         "the host multicast it at %d ms: its own transmission must have re-stamped the cache" % s_)
         for b in kept:
             if b["kind"] == "rx" and b["asm"] and b.get("parsed"):
                 p = b["parsed"]
